@@ -422,6 +422,38 @@ def parsePart : Nat → List (PyVal × PyVal) → Except Exc Part
 
 end
 
+/-- the double nearest to `n / 10^k` (round half to even), in units of 2^-1074 -/
+def nearestDouble (n : Nat) (k : Nat) : Int :=
+  let num := n * 2 ^ 1074
+  let den := 10 ^ k
+  let q := num / den
+  let bits := if q == 0 then 0 else Nat.log2 q + 1
+  let shift := bits - 53
+  let d := den * 2 ^ shift
+  let q' := num / d
+  let rem := num % d
+  let q'' := if 2 * rem > d || (2 * rem == d && q' % 2 == 1) then q' + 1 else q'
+  Int.ofNat (q'' * 2 ^ shift)
+
+/-- `float(s)` for plain decimal text `[+-]digits[.digits]` (anything else: `unmodelled`, or
+    `valueError` when it certainly is not a number) -/
+def pyFloatOfStr (s : String) : R :=
+  let cs := s.toList
+  let (neg, ds) := match cs with
+    | '-' :: r => (true, r)
+    | '+' :: r => (false, r)
+    | r => (false, r)
+  let intPart := ds.takeWhile isAsciiDigit
+  let rest := ds.dropWhile isAsciiDigit
+  let (frac, tail) := match rest with
+    | '.' :: r => (r.takeWhile isAsciiDigit, r.dropWhile isAsciiDigit)
+    | r => ([], r)
+  if !tail.isEmpty || (intPart.isEmpty && frac.isEmpty) then .error .unmodelled else
+  let digits := intPart ++ frac
+  let n := digits.foldl (fun acc c => acc * 10 + (c.toNat - '0'.toNat)) 0
+  let v := nearestDouble n frac.length
+  .ok (.float (if neg then -v else v))
+
 /-- `int(i)` / `float(i)` attempts of `DataPath.from_str` on one token -/
 def fromStrToken (tok : String) : Except Exc PartArg :=
   match pyIntOfStr tok with
@@ -434,7 +466,12 @@ def fromStrToken (tok : String) : Except Exc PartArg :=
       let low := String.ofList (tok.toList.map Char.toLower)
       let hasDigit := tok.toList.any isAsciiDigit
       let special := ["inf", "nan", "infinity"].any (fun w => containsSub w low)
-      if hasDigit || special then .error .unmodelled else .ok (.prim (.str tok))
+      if !hasDigit && !special then .ok (.prim (.str tok)) else
+      match pyFloatOfStr tok with
+      | .ok f => do
+          let keyC : Cond PyVal := .leaf { cls := .key, fn := "in_", args := [], kwargs := [("value", .tuple [.str tok, f])] }
+          pure (.part (← Part.mkMap (.cond keyC) .none none none))
+      | .error e => .error e
   | .error e => .error e
 
 /-- `DataPath.from_str(path_str, delimiter)` for a one-character delimiter -/
